@@ -26,9 +26,7 @@ Obs == ndJsonDeserialize(ObsFile)
 
 ObsV(r) == IF r.err \/ r.panic THEN Rej ELSE Acc
 
-RECURSIVE FileEnv(_)
-FileEnv(fs) == IF fs = <<>> THEN <<>> ELSE <<[k |-> Head(fs).name, s |-> Head(fs).s]>> \o Head(fs).defs \o FileEnv(Tail(fs))
-Env(un) == un.defs \o un.ldefs \o FileEnv(un.files)
+Env(un) == UnitEnv(un)
 
 \* ---- the environment as the as-is loader and the as-is declaration tables bind it ----
 FSOf(un) == {un.rootpath} \cup {un.files[i].path : i \in DOMAIN un.files}
@@ -65,7 +63,7 @@ StripAP(d) ==
     [] OTHER -> d
 \* the schema written at the position of the class
 PosSchema(un) ==
-  CASE un.ctx \in {"req", "opt", "req2", "two", "twoall"} -> un.schema.properties[1].s
+  CASE un.ctx \in {"req", "opt", "req2", "two", "twoall", "collide"} -> un.schema.properties[1].s
     [] un.ctx = "item"   -> un.schema.properties[1].s.items
     [] un.ctx = "nested" -> (IF Has(un.schema.properties[1].s, "ref") THEN un.schema.properties[1].s
                             ELSE un.schema.properties[1].s.properties[1].s)
@@ -99,8 +97,9 @@ DocClass(b, f, i) ==
             THEN "known" ELSE "violation"
 
 Explains(b, f, i) ==
-  LET ns == {x \in Devs : ImplV(f.unit, i, Devs \ {x}) # ImplV(f.unit, i, Devs) \/ ImplV(b.unit, i, Devs \ {x}) # ImplV(b.unit, i, Devs)}
-  IN IF ns # {} THEN ns ELSE Devs
+  LET cands == CandDevs(KeysOf(b.unit.schema) \cup KeysOf(f.unit.schema) \cup EnvKeys(Env(f.unit)), Devs) \cup ({"SameNameDefsCollapse"} \cap Devs)
+      ns == {x \in cands : ImplV(f.unit, i, Devs \ {x}) # ImplV(f.unit, i, Devs) \/ ImplV(b.unit, i, Devs \ {x}) # ImplV(b.unit, i, Devs)}
+  IN IF ns # {} THEN ns ELSE cands
 
 StripPtr(g) == IF Len(g) > 0 /\ SubSeq(g, 1, 1) = "*" THEN SubSeq(g, 2, Len(g)) ELSE g
 \* one Go type shared by all referrers: in the forms where x and x2 refer to ONE definition
